@@ -188,6 +188,12 @@ func checkDigest(c *vm.Ctx, r *vm.Rand, i int, counts map[string]int) {
 		serverID = strings.Repeat(" ", r.Intn(3)) + fmt.Sprint(r.Intn(1000000))
 	}
 	secret := r.Bytes(16)
+	if r.Intn(4) == 0 {
+		// "every shared secret": the functions take a byte slice of any length (0..64 here; 55/56 and 63/64 are where
+		// SHA-1's padding changes block count for the shortest ids and keys)
+		secret = r.Bytes(r.Intn(65))
+		counts["secret-length-other-than-16"]++
+	}
 	key := r.Bytes([]int{0, 1, 162, 294}[r.Intn(4)])
 	checkDigestOf(c, serverID, secret, key, i, counts)
 }
@@ -320,6 +326,19 @@ func checkSignatures(c *vm.Ctx, r *vm.Rand, unrelated, testServices *rsa.Private
 				continue
 			}
 			c.Cover("forgery-rejected." + fn)
+			if kn != "valid-rsa-key" {
+				continue
+			}
+			// the same forgery through PublicKey.Verify (the key travels as a parsed key and is marshalled again)
+			pv := user.PublicKey{ExpiresAt: time.Unix(1<<40, 0), PubKey: &profile.PublicKey, Signature: sig}
+			if c.Guard("sig/pubkey-verify", wit, func() { ok = pv.Verify() }) {
+				continue
+			}
+			if ok {
+				c.Violation("sig/forgery-accepted/PublicKey.Verify/"+fn, fmt.Sprintf("PublicKey.Verify accepted a %s signature that the services key never made", fn), wit())
+				continue
+			}
+			c.Cover("forgery-rejected.PublicKey.Verify.every-forgery-kind")
 		}
 	}
 	// through PublicKey.Verify with an expiry far in the future
@@ -482,6 +501,7 @@ func run(c *vm.Ctx) {
 		checkSignatures(c, sr, unrelated, services, profile)
 	}
 	profDER, _ := x509.MarshalPKIXPublicKey(&profile.PublicKey)
+	checkStructuredForgeries(c, sr, services, profile)
 	if !probeLayout(services, profDER) {
 		c.Inconclusive("the verifier accepts a genuine test-key signature under none of the known text layouts: the checks that need a genuine signature cannot run")
 		return
